@@ -7,6 +7,7 @@ import (
 	"encoding/json"
 	"fmt"
 	"html/template"
+	"os"
 	"reflect"
 	"regexp"
 	"sort"
@@ -527,6 +528,377 @@ func clip(s string) string {
 	return s
 }
 
+// ---- A5: containers made by a LITERAL in the template and then written to ----------------------------------
+//
+// The value of a literal belongs to the execution (and to the evaluation: a literal in a function body or in a loop
+// body is evaluated once per call / per iteration) that evaluated it. The programs below make a hash, an array or a
+// string from a literal, write into it under keys / with values that differ in EVERY execution, and print its size and
+// content. What they must print is known without running anything (Want: the fresh value plus what this execution
+// wrote - the reference is "a literal makes a new value"), so an entry left behind by an earlier or by a simultaneous
+// execution shows, whichever execution comes first in the process.
+
+type LitCase struct {
+	Shape string `json:"shape"` // kind/site/mutation/count - a label for the evidence, not used by the oracle
+	Src   string `json:"src"`
+	// Want is what ONE execution returns; @OWN@ stands for the value of `own`, which is different in every execution
+	Want   string `json:"want"`
+	G      int    `json:"goroutines"`
+	Ctx    string `json:"ctx"`   // own-root | child-of-shared-parent
+	Cache  string `json:"cache"` // off | cold | warm
+	Rounds int    `json:"rounds"`
+	Order  string `json:"order"` // seq-first: two executions one after the other, then G goroutines; conc-first: the reverse
+}
+
+type litKind struct {
+	Name, Lit, Kind string
+	N               int    // entries of the fresh value
+	Show            string // what printing the fresh value gives (an array prints its elements, a string itself)
+}
+
+var litKinds = []litKind{
+	{"hash-empty", `{}`, "hash", 0, ""},
+	{"hash-one", `{a: 1}`, "hash", 1, ""},
+	{"array-empty", `[]`, "array", 0, ""},
+	{"array-one", `[1]`, "array", 1, "1"},
+	{"string-empty", `""`, "string", 0, ""},
+	{"string-one", `"s"`, "string", 1, "s"},
+}
+
+var litMuts = []string{"index", "helper", "append"}
+
+var litSites = []string{"top", "if", "loop", "fn-result", "fn-body", "element", "entry", "argument", "options", "partial"}
+
+const own = "@OWN@"
+
+// litData: the Go side of the programs. The three helpers WRITE into the map / slice they are handed (an options
+// helper that fills in its defaults is the everyday case).
+func litData(ctx hctx.Context) {
+	ctx.Set("t", true)
+	ctx.Set("two", []int{1, 2})
+	ctx.Set("put", func(m map[string]interface{}, k string, v interface{}) int { m[k] = v; return len(m) })
+	ctx.Set("setel", func(a []interface{}, v interface{}) string { a[0] = v; return fmt.Sprint(len(a), ":", a[0]) })
+	ctx.Set("dflt", func(s string, o map[string]interface{}) string {
+		if _, ok := o["sep"]; !ok {
+			o["sep"] = "/"
+		}
+		o[s] = true
+		return fmt.Sprint(s, o["sep"], len(o))
+	})
+	ctx.Set("partialFeeder", func(name string) (string, error) {
+		if t, ok := litPartials[name]; ok {
+			return t, nil
+		}
+		return "", fmt.Errorf("no partial %q", name)
+	})
+}
+
+var litPartials = map[string]string{}
+
+func init() {
+	// one partial per kind: the literal is evaluated inside the partial, written to there, printed there
+	for _, k := range litKinds {
+		for _, mut := range litMuts {
+			for n := 1; n <= 2; n++ {
+				if st, pr, _, ok := litMutate(k, mut, n, "v", "b"); ok {
+					litPartials[fmt.Sprintf("lit_%s_%s_%d", k.Name, mut, n)] = "<% let v = " + k.Lit + " %>" + tags(st) + pr
+				}
+			}
+		}
+	}
+}
+
+func tags(stmts []string) string {
+	s := ""
+	for _, st := range stmts {
+		s += "<% " + st + " %>"
+	}
+	return s
+}
+
+// litMutate: n writes into the container named v (of kind k) in the way mut names; the statements, the tags that print
+// the container afterwards, and what those print. b names the result of an append.
+func litMutate(k litKind, mut string, n int, v, b string) (stmts []string, print, want string, ok bool) {
+	switch k.Kind + "/" + mut {
+	case "hash/index", "hash/helper":
+		set := func(key, val string) string {
+			if mut == "index" {
+				return v + "[" + key + "] = " + val
+			}
+			return "put(" + v + ", " + key + ", " + val + ")"
+		}
+		stmts = []string{set("own", "1")}
+		print = "<%= len(" + v + ") %>,<%= " + v + "[own] %>"
+		want = fmt.Sprintf("%d,1", k.N+n)
+		if n == 2 {
+			stmts = append(stmts, set(`"k1"`, "2"))
+			print += `,<%= ` + v + `["k1"] %>`
+			want += ",2"
+		}
+		if k.N+n == 1 { // one entry: ranging over it has one order
+			print += ",<%= for (kk, xx) in " + v + " { %><%= kk %>=<%= xx %>;<% } %>"
+			want += "," + own + "=1;"
+		}
+		return stmts, print, want, true
+	case "array/index", "array/helper":
+		if k.N == 0 {
+			return nil, "", "", false // nothing to write to
+		}
+		set := func(val string) string {
+			if mut == "index" {
+				return v + "[0] = " + val
+			}
+			return "setel(" + v + ", " + val + ")"
+		}
+		stmts = []string{set("own")}
+		want = fmt.Sprintf("%d,%s", k.N, own)
+		if n == 2 {
+			stmts = append(stmts, set(`own + "x"`))
+			want += "x"
+		}
+		return stmts, "<%= len(" + v + ") %>,<%= " + v + " %>", want, true
+	case "array/append":
+		if n != 1 {
+			return nil, "", "", false // what + gives is not an array that can be appended to again (DESIGN section 8)
+		}
+		return []string{"let " + b + " = " + v + " + own"}, "<%= len(" + v + ") %>,<%= " + v + " %>,<%= " + b + " %>", fmt.Sprintf("%d,%s,%s%s", k.N, k.Show, k.Show, own), true
+	case "string/append":
+		want = k.Show
+		for i := 0; i < n; i++ {
+			stmts = append(stmts, v+" = "+v+" + own")
+			want += own
+		}
+		return stmts, "<%= " + v + " %>", want, true
+	}
+	return nil, "", "", false
+}
+
+// litFresh: tags that print a container of kind k nobody has written to, and what they print
+func litFresh(k litKind, w string) (print, want string) {
+	switch k.Kind {
+	case "hash":
+		return "<%= len(" + w + ") %>", fmt.Sprint(k.N)
+	case "array":
+		return "<%= len(" + w + ") %>,<%= " + w + " %>", fmt.Sprintf("%d,%s", k.N, k.Show)
+	}
+	return "<%= " + w + " %>", k.Show
+}
+
+// litProgram: one program of the family. sfx is appended to every name the program binds (programs are concatenated).
+func litProgram(k litKind, site, mut string, n int, sfx string) (src, want string, ok bool) {
+	v, w, b, mk, a, i := "v"+sfx, "w"+sfx, "b"+sfx, "mk"+sfx, "a"+sfx, "i"+sfx
+	st, pr, wa, ok := litMutate(k, mut, n, v, b)
+	if !ok {
+		return "", "", false
+	}
+	fp, fw := litFresh(k, w)
+	switch site {
+	case "top":
+		return "<% let " + v + " = " + k.Lit + " %>" + tags(st) + pr, wa, true
+	case "if":
+		return "<% let " + v + " = " + k.Lit + " %><%= if (t) { %>" + tags(st) + pr + "<% } %>", wa, true
+	case "loop": // evaluated once per iteration
+		return "<%= for (" + i + ") in two { %><% let " + v + " = " + k.Lit + " %>" + tags(st) + pr + ";<% } %>", wa + ";" + wa + ";", true
+	case "fn-result": // evaluated once per call: the second result is untouched by what was written into the first
+		return "<% let " + mk + " = fn() { return " + k.Lit + " } %><% let " + v + " = " + mk + "() %>" + tags(st) + pr + "|<% let " + w + " = " + mk + "() %>" + fp, wa + "|" + fw, true
+	case "fn-body":
+		if k.Kind == "array" && mut == "append" {
+			return "", "", false // the appended array is a name of the function body
+		}
+		_, pr2, wa2, _ := litMutate(k, mut, n, w, b)
+		return "<% let " + mk + " = fn() {\nlet " + v + " = " + k.Lit + "\n" + strings.Join(st, "\n") + "\nreturn " + v + "\n} %><% let " + v + " = " + mk + "() %><% let " + w + " = " + mk + "() %>" + pr + "|" + pr2, wa + "|" + wa2, true
+	case "element": // two evaluations of the literal inside one array literal
+		return "<% let " + a + " = [" + k.Lit + ", " + k.Lit + "] %><% let " + v + " = " + a + "[0] %>" + tags(st) + pr + "|<% let " + w + " = " + a + "[1] %>" + fp, wa + "|" + fw, true
+	case "entry": // ... inside one hash literal
+		return "<% let " + a + " = {x: " + k.Lit + ", y: " + k.Lit + "} %><% let " + v + " = " + a + `["x"] %>` + tags(st) + pr + "|<% let " + w + " = " + a + `["y"] %>` + fp, wa + "|" + fw, true
+	case "argument": // the literal is handed straight to a Go helper that writes into it
+		if mut != "helper" || n != 1 {
+			return "", "", false
+		}
+		if k.Kind == "hash" {
+			return "<%= put(" + k.Lit + ", own, 1) %>|<%= put(" + k.Lit + `, own + "x", 2) %>`, fmt.Sprintf("%d|%d", k.N+1, k.N+1), true
+		}
+		return "<%= setel(" + k.Lit + ", own) %>|<%= setel(" + k.Lit + `, "y") %>`, fmt.Sprintf("%d:%s|%d:y", k.N, own, k.N), true
+	case "options": // the options argument of a helper that fills in its defaults
+		if k.Kind != "hash" || mut != "helper" || n != 1 {
+			return "", "", false
+		}
+		return `<%= dflt("x", ` + k.Lit + `) %>|<%= dflt(own, ` + k.Lit + `) %>`, fmt.Sprintf("x/%d|%s/%d", k.N+2, own, k.N+2), true
+	case "partial": // the literal is the data of a partial, and the partial's text makes one of its own and writes to it
+		name := fmt.Sprintf("lit_%s_%s_%d", k.Name, mut, n)
+		_, _, pwa, _ := litMutate(k, mut, n, "v", "b")
+		return `<%= partial("` + name + `", {}) %>|<%= partial("` + name + `", {own: own + "p"}) %>`, pwa + "|" + strings.ReplaceAll(pwa, own, own+"p"), true
+	}
+	return "", "", false
+}
+
+type litShape struct {
+	K         int
+	Site, Mut string
+	N         int
+}
+
+// every program of the family
+var litShapes = func() []litShape {
+	var out []litShape
+	for ki, k := range litKinds {
+		for _, site := range litSites {
+			for _, mut := range litMuts {
+				for n := 1; n <= 2; n++ {
+					if _, _, ok := litProgram(k, site, mut, n, ""); ok {
+						out = append(out, litShape{ki, site, mut, n})
+					}
+				}
+			}
+		}
+	}
+	return out
+}()
+
+func (s litShape) String() string {
+	return fmt.Sprintf("%s/%s/%s/%d", litKinds[s.K].Name, s.Site, s.Mut, s.N)
+}
+
+func runLit(r *vk.Run, c LitCase) *vk.Fail {
+	r.Current("lit", c)
+	defer r.Watch("lit", c)()
+	saved := plush.CacheEnabled
+	defer func() { plush.CacheEnabled = saved }()
+	newOwn := func() string { return fmt.Sprintf("o%d", atomic.AddInt64(&uniq, 1)) }
+	src := c.Src
+	var shared *plush.Template
+	switch c.Cache {
+	case "off":
+		plush.CacheEnabled = false
+		t, err := plush.NewTemplate(src)
+		if err != nil {
+			r.Exclude("lit: the text does not parse")
+			return nil
+		}
+		shared = t
+	case "cold":
+		plush.CacheEnabled = true
+		src = fmt.Sprintf("<%%# c14 %d %%>%s", atomic.AddInt64(&uniq, 1), c.Src)
+	default:
+		plush.CacheEnabled = true
+		src = fmt.Sprintf("<%%# c14 %d %%>%s", atomic.AddInt64(&uniq, 1), c.Src)
+		plush.Parse(src)
+	}
+	var parent *plush.Context
+	if c.Ctx == "child-of-shared-parent" {
+		parent = plush.NewContext()
+		litData(parent)
+	}
+	mkCtx := func(o string) hctx.Context {
+		if parent != nil {
+			ctx := parent.New()
+			ctx.Set("own", o)
+			return ctx
+		}
+		ctx := plush.NewContext()
+		litData(ctx)
+		ctx.Set("own", o)
+		return ctx
+	}
+	exec := func(ctx hctx.Context, k int) vk.Res {
+		return vk.Safe(func() (string, error) {
+			if shared != nil && k%2 == 0 {
+				return shared.Exec(ctx)
+			}
+			if shared != nil {
+				return shared.Clone().Exec(ctx)
+			}
+			return plush.Render(src, ctx)
+		})
+	}
+	judge := func(where, o string, x vk.Res) *vk.Fail {
+		want := strings.ReplaceAll(c.Want, own, o)
+		if x.Panicked() || x.Err != nil || x.Out != want {
+			return &vk.Fail{Kind: "lit", Case: c, Msg: fmt.Sprintf("template %q (%s), %s, cache %s, %s, own = %q: got %s; a literal makes a new value in every evaluation, so the execution must return %q whatever ran before it or runs beside it",
+				clip(c.Src), c.Shape, c.Ctx, c.Cache, where, o, clip(x.String()), want)}
+		}
+		return nil
+	}
+	seq := func() *vk.Fail {
+		for k := 0; k < 2; k++ {
+			o := newOwn()
+			if f := judge(fmt.Sprintf("execution %d of two run one after the other", k+1), o, exec(mkCtx(o), k)); f != nil {
+				return f
+			}
+		}
+		return nil
+	}
+	conc := func() *vk.Fail {
+		// everything of the harness is built before the start; between start and end the goroutines call only plush
+		owns := make([][]string, c.G)
+		roots := make([][]hctx.Context, c.G)
+		results := make([][]vk.Res, c.G)
+		for g := range owns {
+			for k := 0; k < c.Rounds; k++ {
+				owns[g] = append(owns[g], newOwn())
+				if parent == nil {
+					roots[g] = append(roots[g], mkCtx(owns[g][k]))
+				}
+			}
+		}
+		var wg sync.WaitGroup
+		start := make(chan struct{})
+		for g := 0; g < c.G; g++ {
+			wg.Add(1)
+			go func(g int) {
+				defer wg.Done()
+				<-start
+				for k := 0; k < c.Rounds; k++ {
+					var ctx hctx.Context
+					if parent != nil {
+						ctx = mkCtx(owns[g][k])
+					} else {
+						ctx = roots[g][k]
+					}
+					results[g] = append(results[g], exec(ctx, k))
+				}
+			}(g)
+		}
+		close(start)
+		wg.Wait()
+		for g := range results {
+			for k, x := range results[g] {
+				if f := judge(fmt.Sprintf("goroutine %d of %d, round %d", g, c.G, k), owns[g][k], x); f != nil {
+					return f
+				}
+			}
+		}
+		return nil
+	}
+	key, _ := json.Marshal(c)
+	nt := ""
+	if c.G >= 2 {
+		nt = string(key)
+	}
+	r.Count(nt, fmt.Sprintf("lit/%s/%s", c.Ctx, c.Cache))
+	r.Class(fmt.Sprintf("G=%d", c.G))
+	r.Class("lit: " + c.Order)
+	for _, p := range strings.Split(c.Shape, "+") {
+		if f := strings.Split(p, "/"); len(f) == 4 {
+			r.Class("lit kind: " + f[0])
+			r.Class("lit site: " + f[1])
+			r.Class("lit write: " + f[2])
+		}
+	}
+	if nt != "" {
+		r.Sample(func() interface{} { return c })
+	}
+	steps := []func() *vk.Fail{seq, conc}
+	if c.Order == "conc-first" {
+		steps = []func() *vk.Fail{conc, seq}
+	}
+	for _, s := range steps {
+		if f := s(); f != nil {
+			return f
+		}
+	}
+	return nil
+}
+
 // ---- B: concurrent Parse / Render of equal and different texts, cache on -------------------------------
 
 type ParseCase struct {
@@ -725,7 +1097,17 @@ func runCtx(r *vk.Run, c CtxCase) *vk.Fail {
 
 // ---- the test -----------------------------------------------------------------------------------------------
 
-const rule = "built with the Go race detector (halt on first report; the case noted last is the replay). In every phase the CONCURRENT part runs first and the sequential baseline after it (what the engine sets up once per process, on first use, is then first used by goroutines running at once), and between their start and their end the goroutines call nothing but plush: contexts, numbered strings and Go values are built before the start (a lock or an atomic of the harness inside them would order their accesses for the detector). (A) one parsed template executed from G in {2,4,8,16,32} goroutines (enumerations start with 32) x {own root context, child of one shared parent} x cache {off: the very same *Template and its Clones; cold; warm} x 3 rounds. Templates: 9 fixed snippets (template-local arrays and hashes with index assignment, accumulating assignment in loops, assignment to names that live in the shared parent, contentFor/contentOf, built-in helpers and iterators, ~= and == against a value that differs in every execution); 9 wide snippets that select fields and methods through values, pointers, indexes, map entries and call results (of a record that is the same in every execution, of one whose strings differ in every execution, and of a value whose Go TYPE is new in every execution), print every kind of value (time with and without TIME_FORMAT, HTML, Stringer, HTMLer, typed slices, maps), call EVERY built-in helper (also with structs and with a block), application helpers (variadic, option map, one that renders a text through its helper context), forgive unknown identifiers in every tolerated position, include partials (nested, with data, with a layout, in a loop; the text of every partial starts with a comment that is new in every run, so partial texts are always cold), nest block helpers three deep and call a function of the template recursively; calls nested 900 deep (the bound is 1000); a partial that includes itself 90 deep, by up to 32 goroutines at once (what counts the nesting counts it per execution); 12 templates that FAIL (unknown identifier after forgiven ones, in a loop on line 4, in a block, in a function; division by zero; index out of bounds; bad pattern; helper error; missing partial; partial that does not parse; wrong argument type; missing member) and 4 texts that do not parse - their error texts must equal the sequential ones; 10 boundary templates (empty, text only, comment only, one tag, one silent tag, 30 nested ifs, 4 nested loops, 300 tags, 64 KB of text, non-ASCII); random all-construct programs (shared generator, with partials and block helpers) with a snippet of any pool appended. (A2) page + layout: every goroutine executes a page that stores blocks with contentFor and then, on the same context, a layout that renders them with contentOf. (A3) prelude: a template executed ONCE, alone, on the shared parent before the goroutines start leaves 21 functions, an array and a hash there; the children call and read them (4 templates; every function value is one object shared by all children). (A4, last phase, class stored-block-in-shared-parent) the prelude stores blocks with contentFor in the shared parent, the children render them with contentOf (with data that differs per execution, in loops, with a default block). A child of the shared parent is given the values that differ per execution itself. Every concurrent result must equal the sequential result; a sequential result that fails is taken twice and the case dropped if it is not reproducible alone. (B) concurrent Parse+Exec / Render / RenderR / BuffaloRenderer of 1-6 equal and different texts with the cache on (first goroutine cold, the rest warm), texts that do not parse among them, optionally with CacheSet under keys of the goroutine. (C) 2-16 goroutines running random mixes of 15 operations - Set / Value / Has / New / New().Set / New().Value / Value(built-in) / Exec on a child, all on ONE shared context, and Value / Set / Has / New().Value / Exec on a grandchild on ONE shared child of it, Value with a key that is no string (called, not judged) - with invariants on what they may observe (a value set on a child never shows in the parent). Non-trivial = G >= 2 and the template uses >= 3 kinds of construct (A; page+layout and prelude count as 3), every B and C case; distinct by case."
+const rule = "built with the Go race detector (halt on first report; the case noted last is the replay). In every phase the CONCURRENT part runs first and the sequential baseline after it (what the engine sets up once per process, on first use, is then first used by goroutines running at once), and between their start and their end the goroutines call nothing but plush: contexts, numbered strings and Go values are built before the start (a lock or an atomic of the harness inside them would order their accesses for the detector). (A) one parsed template executed from G in {2,4,8,16,32} goroutines (enumerations start with 32) x {own root context, child of one shared parent} x cache {off: the very same *Template and its Clones; cold; warm} x 3 rounds. Templates: 9 fixed snippets (template-local arrays and hashes with index assignment, accumulating assignment in loops, assignment to names that live in the shared parent, contentFor/contentOf, built-in helpers and iterators, ~= and == against a value that differs in every execution); 9 wide snippets that select fields and methods through values, pointers, indexes, map entries and call results (of a record that is the same in every execution, of one whose strings differ in every execution, and of a value whose Go TYPE is new in every execution), print every kind of value (time with and without TIME_FORMAT, HTML, Stringer, HTMLer, typed slices, maps), call EVERY built-in helper (also with structs and with a block), application helpers (variadic, option map, one that renders a text through its helper context), forgive unknown identifiers in every tolerated position, include partials (nested, with data, with a layout, in a loop; the text of every partial starts with a comment that is new in every run, so partial texts are always cold), nest block helpers three deep and call a function of the template recursively; calls nested 900 deep (the bound is 1000); a partial that includes itself 90 deep, by up to 32 goroutines at once (what counts the nesting counts it per execution); 12 templates that FAIL (unknown identifier after forgiven ones, in a loop on line 4, in a block, in a function; division by zero; index out of bounds; bad pattern; helper error; missing partial; partial that does not parse; wrong argument type; missing member) and 4 texts that do not parse - their error texts must equal the sequential ones; 10 boundary templates (empty, text only, comment only, one tag, one silent tag, 30 nested ifs, 4 nested loops, 300 tags, 64 KB of text, non-ASCII); random all-construct programs (shared generator, with partials and block helpers) with a snippet of any pool appended. (A2) page + layout: every goroutine executes a page that stores blocks with contentFor and then, on the same context, a layout that renders them with contentOf. (A3) prelude: a template executed ONCE, alone, on the shared parent before the goroutines start leaves 21 functions, an array and a hash there; the children call and read them (4 templates; every function value is one object shared by all children). (A4, last phase, class stored-block-in-shared-parent) the prelude stores blocks with contentFor in the shared parent, the children render them with contentOf (with data that differs per execution, in loops, with a default block). (A5) containers made by a LITERAL of the template and then written to: a generated family of programs = literal {} | {a: 1} | [] | [1] | \"\" | \"s\" x site (top level; inside an if block; in a loop body - one evaluation per iteration; result of a template function called twice; local of a function body called twice; two elements of one array literal; two entries of one hash literal; argument handed straight to a Go helper; options argument of a helper that fills in its defaults; inside a partial whose data argument is {} / {own: ...}) x write (index assignment; a Go helper that writes into the map / slice it is handed; + append / string concatenation) x 1-2 writes, under keys and with values that differ in EVERY execution, printing len, the written entries, the one-entry range and the untouched sibling. The oracle is a reference, not a second run: a literal makes a new value at every evaluation, so the output is the fresh value plus this execution's own writes (Want, with a placeholder for the per-execution value) - whatever ran before or runs beside it. Each case runs two executions one after the other AND G goroutines x rounds on one parsed template, in either order, x context mode x cache mode (quick: every program once with the modes rotating; thorough: the full product, G rotating); a random phase concatenates 1-4 programs (renamed apart) in one template. [] + x is used once per array (what + returns cannot be appended to again: DESIGN section 8). A child of the shared parent is given the values that differ per execution itself. Every concurrent result must equal the sequential result; a sequential result that fails is taken twice and the case dropped if it is not reproducible alone. (B) concurrent Parse+Exec / Render / RenderR / BuffaloRenderer of 1-6 equal and different texts with the cache on (first goroutine cold, the rest warm), texts that do not parse among them, optionally with CacheSet under keys of the goroutine. (C) 2-16 goroutines running random mixes of 15 operations - Set / Value / Has / New / New().Set / New().Value / Value(built-in) / Exec on a child, all on ONE shared context, and Value / Set / Has / New().Value / Exec on a grandchild on ONE shared child of it, Value with a key that is no string (called, not judged) - with invariants on what they may observe (a value set on a child never shows in the parent). Non-trivial = G >= 2 and the template uses >= 3 kinds of construct (A; page+layout and prelude count as 3), every A5 case with G >= 2 (each has a literal, a write and a print), every B and C case; distinct by case."
+
+// replayTimes: a saved case is run repeatedly (the schedule is not controlled), except in the child that the
+// hang watchdog starts to see whether a slow case returns at all: there one run answers the question, and twenty
+// runs of a heavy case under the race detector on a loaded machine look like a case that never returns.
+func replayTimes(n int) int {
+	if os.Getenv("VERIF_REPLAY_CHILD") != "" {
+		return 1
+	}
+	return n
+}
 
 func setup(t *testing.T) *vk.Run {
 	r := vk.Start(t, "C14", rule,
@@ -739,8 +1121,23 @@ func setup(t *testing.T) *vk.Run {
 		if c.G < 1 || c.G > 64 || c.Rounds < 1 || c.Rounds > 20 {
 			return &vk.Fail{Kind: "decode", Msg: "bad case"}
 		}
-		for i := 0; i < 20; i++ {
+		for i := 0; i < replayTimes(20); i++ {
 			if f := runExec(r, c); f != nil {
+				return f
+			}
+		}
+		return nil
+	})
+	r.Replayer("lit", func(raw json.RawMessage) *vk.Fail {
+		var c LitCase
+		if f := vk.Decode(raw, &c); f != nil {
+			return f
+		}
+		if c.G < 1 || c.G > 64 || c.Rounds < 1 || c.Rounds > 20 {
+			return &vk.Fail{Kind: "decode", Msg: "bad case"}
+		}
+		for i := 0; i < replayTimes(20); i++ {
+			if f := runLit(r, c); f != nil {
 				return f
 			}
 		}
@@ -754,7 +1151,7 @@ func setup(t *testing.T) *vk.Run {
 		if c.G < 1 || c.G > 64 || len(c.Srcs) == 0 {
 			return &vk.Fail{Kind: "decode", Msg: "bad case"}
 		}
-		for i := 0; i < 20; i++ {
+		for i := 0; i < replayTimes(20); i++ {
 			if f := runParse(r, c); f != nil {
 				return f
 			}
@@ -769,7 +1166,7 @@ func setup(t *testing.T) *vk.Run {
 		if c.G < 1 || c.G > 64 {
 			return &vk.Fail{Kind: "decode", Msg: "bad case"}
 		}
-		for i := 0; i < 50; i++ {
+		for i := 0; i < replayTimes(50); i++ {
 			if f := runCtx(r, c); f != nil {
 				return f
 			}
@@ -891,6 +1288,34 @@ func TestProp(t *testing.T) {
 	matrix(fmt.Sprintf("%d boundary templates", len(boundarySnippets)), boundarySnippets, nil, "", ctxs)
 	matrix(fmt.Sprintf("%d templates calling functions and reading values a prelude left in the shared parent", len(preludeFnUsers)), preludeFnUsers, nil, preludeFns, ctxs[1:])
 
+	// A5: containers made by a literal and then written to. Quick: every program once, with G, the context mode, the
+	// cache mode and the order rotating from program to program; thorough: every program x context mode x cache mode x
+	// order, G rotating
+	orders := []string{"seq-first", "conc-first"}
+	var lk int64
+	for si, sh := range litShapes {
+		src, want, _ := litProgram(litKinds[sh.K], sh.Site, sh.Mut, sh.N, "")
+		for xi, cx := range ctxs {
+			for ci, ca := range caches {
+				for oi, or := range orders {
+					if r.Quick() && (xi != si%2 || ci != (si/2)%3 || oi != (si/6)%2) {
+						continue
+					}
+					g := gsDesc[(si+xi+ci+oi)%len(gsDesc)]
+					if mine() {
+						r.Check(runLit(r, LitCase{Shape: sh.String(), Src: src, Want: want, G: g, Ctx: cx, Cache: ca, Rounds: 3, Order: or}))
+					}
+					lk++
+				}
+			}
+		}
+	}
+	if r.Quick() {
+		r.Subspace(fmt.Sprintf("%d programs that make a container from a literal ({} {a: 1} [] [1] \"\" \"s\") at one of %d sites and write into it (index assignment, a Go helper that writes into what it is handed, +), 1 or 2 writes; G, context mode, cache mode and order rotating", len(litShapes), len(litSites)), lk, true)
+	} else {
+		r.Subspace(fmt.Sprintf("%d programs that make a container from a literal and write into it x 2 context modes x 3 cache modes x {sequence first, goroutines first}, G rotating", len(litShapes)), lk, true)
+	}
+
 	// B: fixed mixes with texts that fail, and with CacheSet
 	for i, g := range gs {
 		srcs := append([]string{localSnippets[i], localSnippets[i+4]}, brokenSnippets...)
@@ -940,6 +1365,19 @@ func TestProp(t *testing.T) {
 		}
 		return runExec(r, ExecCase{Src: src, Layout: layout, Prelude: prelude, Partials: partials, G: rapid.SampledFrom(gs).Draw(t, "G"),
 			Ctx: cx, Cache: rapid.SampledFrom(caches).Draw(t, "cache"), Rounds: rapid.IntRange(1, 3).Draw(t, "rounds")})
+	})
+	// 1-4 programs of the literal family in one template (every name a program binds carries the program's number)
+	r.Rapid("lit", r.Pick(150, 1200), func(t *rapid.T) *vk.Fail {
+		k := rapid.IntRange(1, 4).Draw(t, "programs")
+		var srcs, wants, shapes []string
+		for i := 0; i < k; i++ {
+			sh := rapid.SampledFrom(litShapes).Draw(t, "shape")
+			src, want, _ := litProgram(litKinds[sh.K], sh.Site, sh.Mut, sh.N, fmt.Sprint(i+1))
+			srcs, wants, shapes = append(srcs, src), append(wants, want), append(shapes, sh.String())
+		}
+		return runLit(r, LitCase{Shape: strings.Join(shapes, "+"), Src: strings.Join(srcs, "#\n"), Want: strings.Join(wants, "#\n"), G: rapid.SampledFrom(gs).Draw(t, "G"),
+			Ctx: rapid.SampledFrom(ctxs).Draw(t, "ctx"), Cache: rapid.SampledFrom(caches).Draw(t, "cache"), Rounds: rapid.IntRange(1, 3).Draw(t, "rounds"),
+			Order: rapid.SampledFrom(orders).Draw(t, "order")})
 	})
 	r.Rapid("parse", r.Pick(200, 1200), func(t *rapid.T) *vk.Fail {
 		k := rapid.IntRange(1, 4).Draw(t, "texts")
